@@ -43,8 +43,11 @@ def ode_taylor(ctx, derivs, x0, y0, tol_prec, n):
     # XXX: do this right for zeros
     radius = ctx.one
     for ts in ser:
-        if ts[-1]:
-            radius = min(radius, ctx.nthroot(tol/abs(ts[-1]), n))
+        # The last coefficient alone is not enough: it vanishes for even
+        # and odd solutions, so also look at the one before it
+        for k in (n-1, n):
+            if k > 0 and ts[k]:
+                radius = min(radius, ctx.nthroot(tol/abs(ts[k]), k))
     radius /= 2  # XXX
     return ser, x0+radius
 
@@ -241,7 +244,14 @@ def odefun(ctx, F, x0, y0, tol=None, degree=None, method='taylor', verbose=False
         F = lambda x, y: [F_(x, y[0])]
         y0 = [y0]
         return_vector = False
-    ser, xb = ode_taylor(ctx, F, x0, y0, tol_prec, degree)
+    # The first segment must be computed at the same working precision
+    # as all later ones (see interpolant below)
+    orig = ctx.prec
+    try:
+        ctx.prec = workprec
+        ser, xb = ode_taylor(ctx, F, x0, y0, tol_prec, degree)
+    finally:
+        ctx.prec = orig
     series_boundaries = [x0, xb]
     series_data = [(ser, x0, xb)]
     # We will be working with vectors of Taylor series
